@@ -115,6 +115,9 @@ def stress_model():
           '<literalExpression><text>n + %d</text></literalExpression></encapsulatedLogic></businessKnowledgeModel>' % (k, k, k, k) for k in range(40)],
         *[lit('e%d' % k, 'u%d(a)' % k, inputs=['a'], knowledge=['u%d' % k]) for k in range(40)],
         lit('dsv', 'fib(7) + u0(1)', knowledge=['fib', 'u0']),
+        # a decision that invokes a decision service as a FEEL function several times (every invocation re-enters the evaluator's name lookup)
+        '<decision name="dsf" id="d_dsf"><variable name="dsf"/><knowledgeRequirement><requiredKnowledge href="#s_svf"/></knowledgeRequirement>'
+        '<literalExpression><text>svf() + svf() + svf() + svf()</text></literalExpression></decision>',
         '<decisionService name="svf" id="s_svf"><variable name="svf"/><outputDecision href="#d_dsv"/></decisionService>',
         '<businessKnowledgeModel name="reent" id="b_reent"><variable name="reent"/><encapsulatedLogic><formalParameter name="n" typeRef="number"/>'
         '<literalExpression><text>svf() + n</text></literalExpression></encapsulatedLogic>'
@@ -134,8 +137,15 @@ def gen_calls(rng, n):
         a = rng.choice([0, 1, 5, 6.5, 7, 9.99, 10, 25, 50, 99, 100, 1001, -3, -0.5, 123456.789]) if rng.random() < 0.7 else round(rng.uniform(-50, 1500), 3)
         s = rng.choice(words)
         d = rng.choice(dates)
-        inv = rng.choice(['num', 'tmp', 'rex', 'tbl', 'top', 'top', 'svc', 'fib', 'rnd', 'rnd', 'trn', 'trn', 'pri', 'pri', 'ord', 'ord', 'c0', 'c0', 'c75', 'zon', 'zon', 'zon', 'reent', 'reent', 'reent', 'ek', 'ek', 'ek', 'ek'])
-        if inv == 'reent':
+        inv = rng.choice(['num', 'tmp', 'rex', 'tbl', 'top', 'top', 'svc', 'fib', 'rnd', 'rnd', 'trn', 'trn', 'pri', 'pri', 'ord', 'ord', 'c0', 'c0', 'c75', 'zon', 'zon', 'zon', 'reent', 'reent', 'reent', 'ek', 'ek', 'ek', 'ek', 'dsf', 'dsf', 'dsf', 'pad', 'pad'])
+        if inv == 'pad':
+            # an invocable called by a name with stray white space, a spelling not used before in this run (unknown invocable: null, alone and
+            # concurrently; anything that LEARNS such names under a write lock at first sight shows here; seeded change C20_h)
+            inv = ' ' * rng.randint(0, 3) + rng.choice(['num', 'top', 'tbl', 'dsf', 'rnd']) + rng.choice([' ', '  ', '\t', ' \t ', '   '])
+            ctx = '{a: %s, s: "%s", d: date("%s")}' % (a, s, d)
+        elif inv == 'dsf':
+            ctx = '{}'
+        elif inv == 'reent':
             ctx = '{n: %d}' % rng.randint(0, 5)
         elif inv == 'ek':
             inv = 'e%d' % rng.randrange(40)
